@@ -15,12 +15,62 @@ open Larking Larking.Lexer Larking.Trie
 theorem translator_complete : Gen.missing = [] := by decide
 
 theorem skeleton_unchanged :
-    (Gen.Skel.conds_variable_index, Gen.Skel.conds_path_search, Gen.Skel.conds_path_match,
-     Gen.Skel.conds_path_addRule, Gen.Skel.conds_path_addVariable, Gen.Skel.conds_path_addPath,
-     Gen.Skel.conds_lexPath, Gen.Skel.conds_lexPathSegment, Gen.Skel.conds_lexer_emit)
-  = (Expected.C01.conds_variable_index, Expected.C01.conds_path_search, Expected.C01.conds_path_match,
-     Expected.C01.conds_path_addRule, Expected.C01.conds_path_addVariable, Expected.C01.conds_path_addPath,
-     Expected.C01.conds_lexPath, Expected.C01.conds_lexPathSegment, Expected.C01.conds_lexer_emit) := rfl
+    (Gen.Skel.conds_variable_index,
+     Gen.Skel.stmts_variable_index,
+     Gen.Skel.conds_path_search,
+     Gen.Skel.stmts_path_search,
+     Gen.Skel.conds_path_match,
+     Gen.Skel.stmts_path_match,
+     Gen.Skel.conds_path_addRule,
+     Gen.Skel.stmts_path_addRule,
+     Gen.Skel.conds_path_addVariable,
+     Gen.Skel.stmts_path_addVariable,
+     Gen.Skel.conds_path_addPath,
+     Gen.Skel.stmts_path_addPath,
+     Gen.Skel.conds_lexPath,
+     Gen.Skel.stmts_lexPath,
+     Gen.Skel.conds_lexPathSegment,
+     Gen.Skel.stmts_lexPathSegment,
+     Gen.Skel.conds_lexer_emit,
+     Gen.Skel.stmts_lexer_emit,
+     Gen.Skel.conds_Mux_match,
+     Gen.Skel.stmts_Mux_match,
+     Gen.Skel.conds_Mux_ServeHTTP,
+     Gen.Skel.stmts_Mux_ServeHTTP,
+     Gen.Skel.conds_params_set,
+     Gen.Skel.stmts_params_set,
+     Gen.Skel.conds_streamWS_RecvMsg,
+     Gen.Skel.stmts_streamWS_RecvMsg,
+     Gen.Skel.conds_streamHTTP_RecvMsg,
+     Gen.Skel.stmts_streamHTTP_RecvMsg)
+  = (Expected.C01.conds_variable_index,
+     Expected.C01.stmts_variable_index,
+     Expected.C01.conds_path_search,
+     Expected.C01.stmts_path_search,
+     Expected.C01.conds_path_match,
+     Expected.C01.stmts_path_match,
+     Expected.C01.conds_path_addRule,
+     Expected.C01.stmts_path_addRule,
+     Expected.C01.conds_path_addVariable,
+     Expected.C01.stmts_path_addVariable,
+     Expected.C01.conds_path_addPath,
+     Expected.C01.stmts_path_addPath,
+     Expected.C01.conds_lexPath,
+     Expected.C01.stmts_lexPath,
+     Expected.C01.conds_lexPathSegment,
+     Expected.C01.stmts_lexPathSegment,
+     Expected.C01.conds_lexer_emit,
+     Expected.C01.stmts_lexer_emit,
+     Expected.C01.conds_Mux_match,
+     Expected.C01.stmts_Mux_match,
+     Expected.C01.conds_Mux_ServeHTTP,
+     Expected.C01.stmts_Mux_ServeHTTP,
+     Expected.C01.conds_params_set,
+     Expected.C01.stmts_params_set,
+     Expected.C01.conds_streamWS_RecvMsg,
+     Expected.C01.stmts_streamWS_RecvMsg,
+     Expected.C01.conds_streamHTTP_RecvMsg,
+     Expected.C01.stmts_streamHTTP_RecvMsg) := rfl
 
 /-- **Routing soundness.** A request is dispatched to a method only along a way through the
 trie whose literal / verb edges equal the path's tokens and whose variable edges' patterns
